@@ -286,7 +286,7 @@ class Harness:
         """candidate counterexample: replay on the real code; only reproducing ones are violations"""
         model = ob.res.get('model') or {}
         if ob.neg_margin is not None and ob.kind != 'cert':
-            r2 = _solve.solve(_smt2(ob.hyps, ob.neg_margin), min(ob.timeout, 15), True)
+            r2 = _solve.solve(_smt2(ob.hyps, ob.neg_margin), min(ob.timeout, 5), True, ('default',))
             if r2['result'] == 'sat' and r2.get('model'):
                 model = r2['model']
         if ob.replay is None:
